@@ -19,11 +19,14 @@ def oracle(term, smart, w, frac, impl_res):
     # exists an assignment consistent with the output in which every flat group fits?
     if M(term, stream, flat_hardline=False, demote=False, fill_unab=False, fit=(w, rw)):
         return 'ok', ''
+    # the open finding first: the output is explained, WITH every flat group's first line fitting, once a flat
+    # group may contain a hardline (the decisions cannot always be reconstructed uniquely from the text: a
+    # strict assignment that overflows may exist besides the one the engine really took)
+    if M(term, stream, flat_hardline=True, demote=False, fill_unab=False, fit=(w, rw)):
+        return 'known:C05-hardline-in-flat-group', ''
     if M(term, stream, flat_hardline=False, demote=False, fill_unab=False):
         return 'violation', 'in every flat/broken assignment consistent with the output some flat group sits on ' \
             'a line that ends beyond min(width, indent + ribbon)'
-    if M(term, stream, flat_hardline=True, demote=False, fill_unab=False, fit=(w, rw)):
-        return 'known:C05-hardline-in-flat-group', ''
     if M(term, stream, flat_hardline=True, demote=False, fill_unab=False):
         return 'violation', 'flat group (containing a hardline) overflows on its first line'
     return 'violation', 'output is not a layout of the document'
